@@ -6,6 +6,8 @@ import json, os, re, shutil, subprocess, sys
 V = os.path.dirname(os.path.dirname(os.path.abspath(__file__)))
 rnd, first = int(sys.argv[1]), int(sys.argv[2])
 head = subprocess.run(["git", "-C", "/repo", "rev-parse", "--short", "HEAD"], capture_output=True, text=True).stdout.strip()
+ASKED = {3: "asked to hide the regression in a refactoring",
+         4: "mut1 a restructuring that looks behaviour-preserving, mut2 added code, mut3 an interaction of two sites / calls / configuration"}
 for P in sys.argv[3:]:
     wt = f"/tmp/wt/{P}"
     stash = f"/tmp/h{rnd}_{P}"
@@ -36,7 +38,7 @@ for P in sys.argv[3:]:
         shutil.copy(os.path.join(sd, "demo.py"), dst)
         out = {"id": sid, "property": P, "round": rnd, "summary": meta.get("summary", ""), "needs_to_manifest": meta.get("needs_to_manifest", ""),
                "files_touched": meta.get("files_touched", []),
-               "origin": f"fresh sub-agent (round {rnd}: asked to hide the regression in a refactoring) given only the property text and a scratch "
+               "origin": f"fresh sub-agent (round {rnd}: {ASKED.get(rnd, 'free choice')}) given only the property text and a scratch "
                          f"worktree of /repo at {head}; nothing from /verif",
                "confirmed": {"base_commit": head, "patch_applies": True, "baseline_with_patch": m.group(4), "demo_exit_clean": 0,
                              "demo_exit_with_patch": 1, "how": "tools/verify_seed.sh <worktree> <seed dir> <id>"}}
